@@ -9,16 +9,17 @@ P="$WT/SEED/$V.patch.diff"; D="$WT/SEED/$V.demo.rs"
 [ -f "$P" ] || { echo "no patch $P"; exit 2; }
 cd "$WT" || exit 2
 git checkout -q -- . 2>/dev/null
-rm -f crates/lib/tests/seed_demo_*.rs
+DEMO_DIR="${DEMO_DIR:-crates/lib/tests}"; PKG="${PKG:-gamedig}"; FEAT="${FEATURES:+--features $FEATURES}"
+mkdir -p "$DEMO_DIR"; rm -f crates/*/tests/seed_demo_*.rs
 export CARGO_NET_OFFLINE=true
 git apply "$P" || { echo "patch does not apply"; exit 2; }
 # the existing suite with the change (no demo files present)
 suite=$(cargo test --workspace --offline --no-fail-fast 2>&1 | grep -E "^test .* \.\.\. FAILED" | sort -u | tr '\n' ' ')
-cp "$D" "crates/lib/tests/seed_demo_$V.rs"
-demo_with=$(cargo test -p gamedig --offline --test "seed_demo_$V" 2>&1 | grep -E "^test result" | tail -1)
+cp "$D" "$DEMO_DIR/seed_demo_$V.rs"
+demo_with=$(cargo test -p $PKG --offline $FEAT --test "seed_demo_$V" 2>&1 | grep -E "^test result" | tail -1)
 git apply -R "$P"
-demo_without=$(cargo test -p gamedig --offline --test "seed_demo_$V" 2>&1 | grep -E "^test result" | tail -1)
-rm -f crates/lib/tests/seed_demo_*.rs
+demo_without=$(cargo test -p $PKG --offline $FEAT --test "seed_demo_$V" 2>&1 | grep -E "^test result" | tail -1)
+rm -f crates/*/tests/seed_demo_*.rs
 echo "suite-failures-with-change: [$suite]"
 echo "demo without change: $demo_without"
 echo "demo with change:    $demo_with"
@@ -30,7 +31,7 @@ cp "$P" "$dir/patch.diff"; cp "$D" "$dir/demo.rs"; cp "$WT/SEED/notes.md" "$dir/
 python3 - "$dir" "$ID" "$V" "$demo_without" "$demo_with" "$suite" "$res" <<'PY'
 import json,sys
 d,idp,v,dw,dc,suite,res=sys.argv[1:8]
-meta={"property":idp,"variant":v,"origin":"sub-agent given only the property text and a scratch worktree","demo_placement":"crates/lib/tests/seed_demo_%s.rs"%v,
+meta={"property":idp,"variant":v,"origin":"sub-agent given only the property text and a scratch worktree","demo_placement":"%s/seed_demo_%s.rs"%(__import__("os").environ.get("DEMO_DIR","crates/lib/tests"),v),
  "confirmed":{"existing_suite_failures_with_change":suite.strip(),"demo_without_change":dw,"demo_with_change":dc},
  "checks_run_against_it":[l for l in res.splitlines() if l.startswith('C')],
  "detected_by":[l.split()[0] for l in res.splitlines() if l.startswith('C') and 'violations=0' not in l]}
